@@ -25,7 +25,7 @@ pub fn run(ctx: &Ctx) -> ! {
     let mut rep = Report::new(ctx, "exploration");
     rep.assume("guards of the poisoned positions are constant by construction (literals, x == x, x <= MAX, saturating_add(x,0) == x, Some(_) is Some) so the poisoned operand/branch is untaken for every input");
     rep.assume("poison = todo(), a failing check, a failing debug_assert, an early return, or probe::tick/flag with a reserved argument logged by the harness I/O");
-    let n = ctx.pick(6_000, 150_000);
+    let n = ctx.pick(15_000, 300_000);
     rep.explore(
         "poisoned_programs",
         "C22 programs (depth <=4) with poison planted in the right operand of && / || / or, in untaken if/match expression arms, untaken if/match statement branches and the else of passing checks; result, panic-freeness and foreign-call log vs the reference interpreter, plus: no poison foreign call in the log; non-trivial = at least one planted poison (every case)",
